@@ -1,9 +1,10 @@
 HP_P = 'hp:slot,gops_k1,gops_k2,gops_k3,acq_k2,acq_k3,acq_int_k1,acq_int_k2,acq_int_k3,acq_int_k5'
 PROP = dict(
-  units=[HP_P, 'ebr', 'qsbr', 'lfrc', 'stampit_guard'],
+  units=['hpscan', HP_P, 'ebr', 'qsbr', 'lfrc', 'stampit_guard'],
   level='other',
   strict_obligations=True,
-  obligations=['hp.acquire.validated', 'hp.acquire.snapshot', 'hp.acquire_if_equal.iff', 'hp.sync.orders', 'hp.copy.shares', 'hp.ctor.protects', 'hp.guard_ops.preserve_inv',
+  obligations=['hpscan.fence_first', 'hpscan.adopt_before_gather', 'hpscan.gather.all_slots', 'hpscan.gather.exact', 'hpscan.search_sorted', 'hpscan.spares_protected', 'hescan.spares_protected_interval', 'hpscan.skips_inactive', 'hpscan.retire.once_then_trigger',
+               'hp.acquire.validated', 'hp.acquire.snapshot', 'hp.acquire_if_equal.iff', 'hp.sync.orders', 'hp.copy.shares', 'hp.ctor.protects', 'hp.guard_ops.preserve_inv',
                'ebr.enter.flag_then_fence_then_epoch', 'ebr.acquire.enter_before_load', 'ebr.nesting.balanced', 'ebr.free.three_epochs', 'ebr.free.index_consistent', 'ebr.free.exact',
                'ebr.advance.after_scan', 'ebr.advance.sync', 'ebr.scan.exact', 'ebr.scan.prefix_valid', 'ebr.orphans.slot', 'ebr.retire.slot', 'ebr.leave.release_store',
                'ebr.enter.invariant', 'ebr.enter.calls_pre', 'ebr.model.mod_lemma',
